@@ -141,6 +141,10 @@ func sortKeys[K comparable](keys []K) {
 	copy(keys, out)
 }
 
+// PtrRank gives pointers that a harness uses as map keys a run-independent order (an address
+// has none). Set once, before any simulation.
+var PtrRank = map[uintptr]int{}
+
 func keyString(k any) string {
 	switch v := k.(type) {
 	case string:
@@ -159,6 +163,11 @@ func keyString(k any) string {
 		return "S|" + v.String()
 	}
 	rv := reflect.ValueOf(k)
+	if rv.Kind() == reflect.Ptr {
+		if rank, ok := PtrRank[rv.Pointer()]; ok {
+			return "p|" + strconv.Itoa(1000000+rank)
+		}
+	}
 	switch rv.Kind() {
 	case reflect.Ptr, reflect.UnsafePointer, reflect.Chan, reflect.Func:
 		HarnessError(fmt.Sprintf("map range over key type %T has no run-independent order", k))
